@@ -24,6 +24,10 @@ CLAIMED = {
          "Necessary structural conditions decided from source: nothing reachable from the hooks the evaluator calls mutates a scope, evaluates code or writes AST/runtime fields; visit hooks return nil; hook calls are nil-tested; "
          "the suspend/continue hand-shake satisfies (W)/(S)/(S') so no continue command can be lost under any timing; debugger tables only under the debugger lock (exclusive for writes). "
          "Does not decide equality of outcomes over programs x command histories.", "3/C15"),
+ "C12": ("lock-flow pairing analysis on every CFG path (deferred closures summarised), guarded-by for the mutex/owner tables, ordering/dominance rules, exhaustive enumeration of the bypass condition's abstract cases",
+         "Structural conditions that, together with sync.Mutex's contract, give exclusion/re-entrancy/release: every Lock of the module released on every exit; mutex and owner tables only under the table lock with one key; "
+         "owner recorded after Lock and cleared before Unlock; the Lock bypassed exactly for (present, owner = this thread) — all 4 abstract cases enumerated; free-owner sentinel outside the thread-id range. "
+         "Does not execute schedules; thread ids chosen by an embedding host are outside the check.", "3/C12"),
 }
 
 NOT_YET = "check not built yet in this session (see DESIGN.md section 3 for the planned static rule)"
